@@ -22,15 +22,21 @@ ASSUMPTIONS = [
     "pyparsing results-name semantics as documented: expr(name) copies the element and shares the action; "
     "names inside an element whose action returns a new object are not visible outside it",
     "an unknown results name reads as '' (the repo's ParseResults.__getattr__ patch, modelled)",
-    "exemptions (one named symbol each): ENUM alternative; ReturnType.optional_std",
+    "exemptions (one named symbol each): ENUM alternative; ReturnType.optional_std; G8: four named mutation sites",
 ]
 
 
 G8_EXEMPT = {
-    "instantiate_namespace": "documented in/out parameter: the namespace's content is replaced by its "
-                             "instantiated content (docstring of instantiate_namespace)",
-    "MatlabWrapper._expand_default_arguments": "works on copies it makes itself (method_copy/args_copy); the "
-                                               "shape of that algorithm is decided by C06/M4",
+    "instantiate_namespace:namespace.content":
+        "documented in/out parameter: the namespace's content is replaced by its instantiated content (docstring "
+        "of instantiate_namespace)",
+    "MatlabWrapper._expand_default_arguments:method.args.backup":
+        "additive annotation: a copy of the argument list is attached under a new attribute, no declared field changes",
+    "MatlabWrapper._expand_default_arguments:_.default":
+        "arg belongs to the private copy made by method_copy() two lines above (copy.copy of every argument); the "
+        "shape of that algorithm is decided by C06/M4",
+    "MatlabWrapper._expand_default_arguments:method.args.list().remove(_)":
+        "the list belongs to the ArgumentList built by method_copy() (args_copy builds a new list); C06/M4",
 }
 
 
